@@ -13,7 +13,9 @@ rejected with UnknownClassException before define_class and reaches the class af
      a referential attribute reads, under every spelling, the key value of the related instance; writing it
      under any spelling raises MetaException and changes nothing; serialize_instance and where_eq see the
      cell values; every spelling of a kind addresses the same class in find_metaclass / new / select_many;
-     constructor keywords on non-referential attributes under any spelling set the cell.
+     constructor keywords on non-referential attributes under any spelling set the cell; an operation on one instance
+     leaves the dictionaries of all other instances and of the classes unchanged (other-instance-changed,
+     class-dict-changed); arguments stay the caller's (argument-changed, class-aliases-argument).
   K  (correspondence): result of every op, and the final `__dict__` of every instance (keys in order, values)
      and the link pairs, against lean/PyxModel/Attr.lean run by the driver command `(attr op…)`.
 
@@ -54,7 +56,10 @@ RULE = ('(1) exhaustive: every history of length L (quick 3, thorough 4) over th
         '(find_metaclass / new / select_many / select_any) under each of the 4 spellings of a 2-letter kind BEFORE '
         'define_class under each spelling, then every lookup kind under every spelling after it, plus random '
         'histories over 2-4 kinds interleaving lookups before and after each definition (spellings used before the '
-        'definition are revisited after it) and redefinition attempts under other spellings; (4) loaded from text (D only): the same two-class schema with its association and 3-7 rows written as SQL text (named INSERTs with respelled, shuffled, partly omitted columns; matching, dangling and null referential values; uuid and integer spellings of unique_id values), built by xtuml.ModelLoader, then a random history of up to 25 ops as in (2); non-trivial = some cell was written under two '
+        'definition are revisited after it) and redefinition attempts under other spellings; in (2) a third of the schemas give the '
+        'second class attribute names of the first in another spelling, every write / delete / creation / selection is framed by a '
+        'snapshot of all OTHER instances\' dictionaries and of the class dictionaries (must be unchanged), argument lists / dicts '
+        'are checked unchanged and mutated after the call; (4) loaded from text (D only): the same two-class schema with its association and 3-7 rows written as SQL text (named INSERTs with respelled, shuffled, partly omitted columns; matching, dangling and null referential values; uuid and integer spellings of unique_id values), built by xtuml.ModelLoader, then a random history of up to 25 ops as in (2); non-trivial = some cell was written under two '
         'different spellings and read under yet another; distinct = distinct op sequence')
 EXHAUSTIVE = {'quick': True, 'thorough': True}
 ASSUMPTIONS = ['names are ASCII identifiers (str.upper on ASCII); association keys on the referential side are spelled as '
@@ -184,6 +189,13 @@ def _random_case(r, maxlen, load=False):
     key_ty = r.choice(['unique_id', 'integer', 'string'])
     a_attrs[0][1] = respell(r, key_ty)
     b_attrs = mk_attrs(r.randint(2, 5))
+    if r.random() < 0.35:
+        # two of a kind: the second class declares some of the FIRST class's attribute names, in another spelling (a
+        # resolution remembered per spelling instead of per class would confuse them)
+        for pos in r.sample(range(len(b_attrs)), r.randint(1, len(b_attrs))):
+            cand = respell(r, r.choice(a_attrs)[0])
+            if all(cand.upper() != nm.upper() for nm, _ in b_attrs):
+                b_attrs[pos][0] = cand
     with_assoc = r.random() < 0.85 or load
     ref_name = None
     if with_assoc:
@@ -544,6 +556,27 @@ def run_impl(case):
                          'instance %d: reading %r gives %r, the value addressed by %r is %r' % (i, sp, got, nm, want), upto)
                     break
 
+    def others(i):
+        """what an operation on instance i (or the creation of a new one: i = None) must leave alone: the dictionaries of all
+        OTHER instances, and the dictionaries of the classes themselves (a value stored on the class would be read by every
+        instance that has none of its own)"""
+        snap = [(j, list(o.__dict__.items())) for j, o in enumerate(insts) if j != i]
+        cls_keys = {}
+        for o in insts:
+            cls_keys[id(type(o))] = (type(o), sorted(k for k in vars(type(o)) if not k.startswith('__')))
+        return snap, cls_keys
+
+    def check_others(before, op_text, upto):
+        snap, cls_keys = before
+        for j, items in snap:
+            if list(insts[j].__dict__.items()) != items:
+                fail('other-instance-changed', '%s changed the dictionary of ANOTHER instance (%d) from %r to %r'
+                     % (op_text, j, items, list(insts[j].__dict__.items())), upto)
+        for t, keys in cls_keys.values():
+            now = sorted(k for k in vars(t) if not k.startswith('__'))
+            if now != keys:
+                fail('class-dict-changed', '%s changed the dictionary of the CLASS %s: %r -> %r' % (op_text, t.__name__, keys, now), upto)
+
     def register_new(K, before):
         mc = m.metaclasses.get(K)
         if mc is None or len(mc.storage) <= before:
@@ -604,7 +637,16 @@ def run_impl(case):
                 unames = [a.upper() for a, _ in op[2]]
                 collide = len(set(unames)) < len(unames)      # two attribute names coincide apart from letter case
                 try:
-                    m.define_class(op[1], [tuple(a) for a in op[2]])
+                    given = [tuple(a) for a in op[2]]
+                    made = m.define_class(op[1], given)
+                    # the caller's list stays the caller's: it is not changed, and changing it afterwards does not change the class
+                    if given != [tuple(a) for a in op[2]]:
+                        fail('argument-changed', 'define_class(%r) changed the attribute list it was given to %r' % (op[1], given), n)
+                    given.append(('Zz_%d' % n, 'integer'))
+                    given[:1] = [('Qq_%d' % n, 'string')]
+                    if [tuple(a) for a in made.attributes] != [tuple(a) for a in op[2]]:
+                        fail('class-aliases-argument', 'changing the list given to define_class(%r) afterwards changed the class: '
+                             'attributes %r' % (op[1], list(made.attributes)), n)
                     if dup:
                         fail('class-redefined', 'define_class(%r) succeeded although %r exists' % (op[1], orc.classes[K]['kind']), n)
                     elif collide:
@@ -643,11 +685,15 @@ def run_impl(case):
                 before = len(mc0.storage) if mc0 is not None else 0
                 kwargs = dict((k, v) for k, v in op[3])
                 exc = None
+                around = others(None)
                 try:
                     m.new(op[1], *op[2], **kwargs)
                 except (x.MetaException, AttributeError) as e:
                     exc = e
                     res = _exc_name(e)
+                check_others(around, 'new(%r, ...)' % op[1], n)
+                if list(kwargs.items()) != [(k, v) for k, v in op[3]]:
+                    fail('argument-changed', 'new(%r) changed the keyword dictionary it was given to %r' % (op[1], kwargs), n)
                 i = register_new(K, before)
                 if K not in orc.classes and exc is None:
                     fail('unknown-class-found', 'new(%r) succeeded although no such class is defined' % op[1], n)
@@ -669,6 +715,7 @@ def run_impl(case):
                 dn, _ = orc.declared_name(i, sp)
                 is_ref = orc.is_ref(i, sp)
                 before = list(inst.__dict__.items())
+                around = others(i)
                 try:
                     setattr(inst, sp, v)
                     if is_ref:
@@ -680,6 +727,7 @@ def run_impl(case):
                         fail('plain-write-rejected', 'instance %d: writing %r raised MetaException' % (i, sp), n)
                     elif list(inst.__dict__.items()) != before:
                         fail('referential-write-changed-state', 'instance %d: rejected write under %r changed __dict__' % (i, sp), n)
+                check_others(around, 'writing %r of instance %d' % (sp, i), n)
                 if dn is not None and not is_ref:
                     orc.cells[(i, dn.upper())] = v
                     written.setdefault((i, dn.upper()), set()).add(sp)
@@ -692,6 +740,7 @@ def run_impl(case):
                 dn, _ = orc.declared_name(i, sp)
                 cur = orc.cells.get((i, dn.upper()), UNKNOWN) if dn is not None else UNKNOWN
                 in_domain = dn is not None and not orc.is_ref(i, sp) and cur is not ABSENT and cur is not UNKNOWN
+                around = others(i)
                 try:
                     delattr(inst, sp)
                 except (KeyError, AttributeError) as e:
@@ -699,6 +748,7 @@ def run_impl(case):
                     if in_domain:
                         fail('delete-rejected', 'instance %d: del under %r raised %s although %r holds a value'
                              % (i, sp, type(e).__name__, dn), n)
+                check_others(around, 'deleting %r of instance %d' % (sp, i), n)
                 if in_domain:
                     orc.cells[(i, dn.upper())] = ABSENT
                     written.pop((i, dn.upper()), None)
@@ -736,11 +786,19 @@ def run_impl(case):
             elif nm in ('sel', 'sel1'):
                 K = op[1].upper()
                 try:
+                    # the same filter object serves two selections (a filter that remembers or consumes something would show)
+                    flt = x.where_eq(**dict((k, v) for k, v in op[2]))
+                    around = others(None)
                     if nm == 'sel':
-                        q = m.select_many(op[1], x.where_eq(**dict((k, v) for k, v in op[2])))
+                        q = m.select_many(op[1], flt)
+                        again = m.select_many(op[1], flt)
+                        if [id(o) for o in q] != [id(o) for o in again]:
+                            fail('where-eq-differs', 'the same where_eq filter used twice on %r gave %d and then %d instances'
+                                 % (op[1], len(q), len(again)), n)
                     else:
-                        one = m.select_any(op[1], x.where_eq(**dict((k, v) for k, v in op[2])))
+                        one = m.select_any(op[1], flt)
                         q = [] if one is None else [one]
+                    check_others(around, 'a selection on %r' % op[1], n)
                     res = [index_of.get(id(o), -1) for o in q]
                     if K in orc.classes:
                         want, known = [], True
